@@ -73,7 +73,13 @@ func (r *Parser) split(data []byte, atEOF bool) (advance int, token []byte, err 
 
 // Next parses a single field from the reader. It returns false when there are no more fields to parse.
 func (r *Parser) Next(f *Field) bool {
-	if !r.fieldScanner.Next(f) {
+	// A token may hold no field at all (e.g. only a comment, an unknown field or trailing blank lines),
+	// so keep scanning until a field is found, the input ends or an error occurs.
+	for !r.fieldScanner.Next(f) {
+		if r.fieldScanner.Err() != nil || r.inputScanner == nil {
+			return false
+		}
+
 		if !r.inputScanner.Scan() {
 			// Do this to signal EOF, which bufio.Scanner suppresses.
 			if r.inputScanner.Err() == nil {
@@ -94,8 +100,6 @@ func (r *Parser) Next(f *Field) bool {
 		// have to worry about allocations and ownership, but also bigger and less frequent allocations
 		// are made, compared to the previous usage – allocations are now made per event, not per field value.
 		r.fieldScanner.Reset(r.inputScanner.Text())
-
-		return r.fieldScanner.Next(f)
 	}
 
 	return true
